@@ -58,6 +58,8 @@ class Env(object):
         self.spawned = []
         self.shared = None
         self.shared_children = []
+        self.in_shared = 0
+        self.max_in_shared = 0
 
     def next_n(self, who):
         k = self.ids.get(who, 0) + 1
@@ -147,9 +149,12 @@ def make_genfn(env, who, body, base_holder, may_spawn=True):
                 entry = [shared, env.shared_children]
                 with shared.context():
                     stack.append(entry)
+                    env.in_shared += 1
+                    env.max_in_shared = max(env.max_in_shared, env.in_shared)
                     try:
                         r = yield from run(node[1], stack)
                     finally:
+                        env.in_shared -= 1
                         stack.pop()
                     if r is not None:
                         return r
@@ -382,7 +387,7 @@ def check(case):
     ops = set(s[1] for s in case["script"])
     ctxs = set(s[3] for s in case["script"])
     gens_used = set(s[0] % len(case["gens"]) for s in case["script"])
-    return {"ops": sorted(ops), "ctxs": len(ctxs), "gens_used": len(gens_used), "trace": len(env_d.trace), "vias": sorted(vias)}
+    return {"ops": sorted(ops), "ctxs": len(ctxs), "gens_used": len(gens_used), "trace": len(env_d.trace), "vias": sorted(vias), "max_in_shared": env_d.max_in_shared}
 
 
 def _first_diff(a, b):
@@ -400,6 +405,8 @@ def classify(case, info):
     labels = ["gens=%d" % len(case["gens"]), "driver-contexts=%d" % info["ctxs"]] + ["op:" + o for o in info["ops"]]
     labels += ["resumed-via:" + {0: "same-Context-object", 1: "copied-Context", 2: "other-thread"}[v] for v in info.get("vias", [])]
     text = canon(case["gens"])
+    if info.get("max_in_shared", 0) >= 2:
+        labels.append("two-generators-inside-the-shared-action's-context-at-once")
     if any(c is not None for c in case.get("create_ctx") or []):
         labels.append("created-in-one-context-started-in-another")
     for k in ("yieldfrom", "try", "return", "action", "spawn", "shared"):
@@ -447,7 +454,8 @@ def strategy():
     ).map(list)
     return st.integers(1, 3).flatmap(
         lambda n: st.builds(
-            lambda created, script, gens: {"create_ctx": created, "script": script, "gens": gens},
+            lambda wrap, created, script, gens: {"create_ctx": created, "script": script, "gens": [[["shared", g]] for g in gens] if wrap else gens},
+            st.sampled_from([False, False, False, True]),
             st.lists(st.sampled_from([None, None, 0, 1, 2, 3]), min_size=n, max_size=n),
             st.lists(step, min_size=1, max_size=14),
             st.lists(bodies(), min_size=n, max_size=n),
